@@ -24,8 +24,9 @@ def gap(rnd, final=False):
         if k < 0.45:
             items.append(bytes(rnd.choice(b" \t\r\n") for _ in range(rnd.randint(1, 3))))
         elif k < 0.72:
-            body = bytes(rnd.choice(b'ab "\\/*\t{}[]:,') for _ in range(rnd.randint(0, 8)))
-            items.append(b"//" + body + b"\n")
+            body = bytes(rnd.choice(b'ab "\\/*\t\r{}[]:,') for _ in range(rnd.randint(0, 8)))
+            # a line comment ends at LF (a lone CR does not end it); CRLF endings occur too
+            items.append(b"//" + body + rnd.choice([b"\n", b"\n", b"\r\n"]))
         else:
             body = bytes(rnd.choice(b'ab "\\/*\n{}[]:,') for _ in range(rnd.randint(0, 8)))
             if rnd.random() < 0.3:
@@ -36,7 +37,7 @@ def gap(rnd, final=False):
                 body = body.replace(b"*/", b"* /")
             items.append(b"/*" + body + b"*/")
     if final and rnd.random() < 0.2:
-        items.append(b"// trailing comment without newline")
+        items.append(rnd.choice([b"// trailing comment without newline", b"// ends in CR\r", b"//", b"//\r"]))
     return b"".join(items)
 
 
